@@ -303,7 +303,8 @@ class _LandmarksConditional:
             scale = 1 / sqrt(variances)
             A = A * scale[None, :]
             r = r * scale if ndim(r) == 1 else r * scale[:, None]
-            noise_sigma, noise_factor = 1.0, None
+            # the stated noise in whitened units (1 unless sigma^2 was raised to the jitter)
+            noise_sigma, noise_factor = sigma * scale, None
             sigma = None
 
         LLB = dot(A, A.T)
